@@ -8,7 +8,7 @@ from ..cfg import NORMAL, Node
 from ..core import Ctx
 from ..flow import ALL, find_path, names_in
 from ..model import AnalysisError, FunctionInfo, dotted, norm_text
-from .common import edge_target, kwarg, reachable_from
+from .common import eval3, edge_target, kwarg, reachable_from
 
 EXPLANATION = (
     "Static analysis of the metadata mutators: (R1) sibling agreement of the three snapshot-removal sites (expire mutator, "
@@ -75,7 +75,7 @@ def r0(ctx: Ctx) -> None:
            "parent_of is built from the first argument (all snapshots before removal)")
     fin = [n for n in inside if n.kind == "stmt" and isinstance(n.ast, ast.Assign) and norm_text(n.ast.targets[0]).endswith(".parent_snapshot_id")]
     ctx.ob("C15.R0", f, "the survivor's parent is set to the walk's result", fin[0] if fin else None,
-           bool(fin) and isinstance(fin[0].ast.value, ast.Name), "")  # type: ignore[union-attr]
+           bool(fin) and (isinstance(fin[0].ast.value, ast.Name) or id(fin[0].ast.value) in g.inlined_calls), "")  # type: ignore[union-attr]
 
 
 def check(ctx: Ctx) -> None:
@@ -159,8 +159,25 @@ def r1(ctx: Ctx) -> None:
     mut = sites["expire mutator"]
     assert mut is not None
     comps = [n for n in ast.walk(mut.node) if isinstance(n, ast.ListComp) and "snapshots" in norm_text(n.generators[0].iter)]
-    ok = any("current_snapshot_id" in norm_text(i) and isinstance(i, ast.BoolOp) and isinstance(i.op, ast.Or)
-             for c in comps for i in c.generators[0].ifs)
+    # names standing for the current snapshot id inside the mutator
+    cur_names = {"current_snapshot_id"} | {t.id for n in ast.walk(mut.node) if isinstance(n, ast.Assign)
+                                            and isinstance(n.value, ast.Attribute) and n.value.attr == "current_snapshot_id"
+                                            for t in n.targets if isinstance(t, ast.Name)}
+
+    def _is_cur(x: ast.AST) -> bool:
+        return (isinstance(x, ast.Attribute) and x.attr == "current_snapshot_id") or (isinstance(x, ast.Name) and x.id in cur_names)
+
+    def _atom_current(x: ast.AST) -> Optional[bool]:
+        # scenario: the element under test IS the current snapshot
+        if isinstance(x, ast.Compare) and len(x.ops) == 1 and isinstance(x.ops[0], (ast.Eq, ast.NotEq)):
+            a, b = x.left, x.comparators[0]
+            if (_is_cur(a) and isinstance(b, ast.Attribute) and b.attr == "snapshot_id") or \
+                    (_is_cur(b) and isinstance(a, ast.Attribute) and a.attr == "snapshot_id"):
+                return isinstance(x.ops[0], ast.Eq)
+        return None
+
+    ok = bool(comps) and all(
+        c.generators[0].ifs and all(eval3(i, _atom_current) is True for i in c.generators[0].ifs) for c in comps)
     ctx.ob("C15.R1", mut, "expire: keep-predicate has the `== current_snapshot_id` disjunct", None, ok,
            "the current snapshot is never expired, whatever its age", text="expire-current")
     ret = sites["retention"]
@@ -378,24 +395,29 @@ def r6(ctx: Ctx) -> None:
              "updated before the metadata file is written", 3)
     f = ctx.fn("metadata_manager.MetadataManager._append_metadata_log")
     g = ctx.cfg(f)
-    mfile = [d for d in ast.walk(f.node) if isinstance(d, ast.Dict) and any(isinstance(k, ast.Constant) and k.value == "metadata-file" for k in d.keys)]
-    epn = ""
-    if mfile:
-        for k, v in zip(mfile[0].keys, mfile[0].values):
-            if isinstance(k, ast.Constant) and k.value == "metadata-file":
-                epn = norm_text(v)
+    def _entry_value(key: str) -> Optional[ast.AST]:
+        """value stored under `key` in a dict display of f (keys may be spelled through class / module constants)"""
+        for d in ast.walk(f.node):
+            if isinstance(d, ast.Dict):
+                for k, v in zip(d.keys, d.values):
+                    if k is not None and ctx.prog.const_str(k, f.module, f) == key:
+                        return v
+        return None
+
+    mv = _entry_value("metadata-file")
+    epn = norm_text(mv) if mv is not None else ""
     prevp = f.params[-1].name
     ep = [n for n in g.nodes if n.kind == "stmt" and isinstance(n.ast, ast.Assign) and norm_text(n.ast.targets[0]) == epn]
-    ok = bool(ep) and prevp in norm_text(ep[0].ast.value) and "metadata_path" in norm_text(ep[0].ast.value)  # type: ignore[union-attr]
+    eo = ctx.slicer(f).origins(ep[0].ast.value, ep[0].id) if ep else {"names": set(), "params": set()}  # type: ignore[union-attr]
+    ok = bool(ep) and (prevp in eo["names"]) and any(n.endswith("metadata_path") for n in eo["names"])
     ctx.ob("C15.R6", f, "entry path = metadata dir + superseded file", ep[0] if ep else None, ok, "")
     logv = {norm_text(n.value) for n in ast.walk(f.node) if isinstance(n, ast.Assign) and any(isinstance(t, ast.Attribute) and t.attr == "metadata_log" for t in n.targets)}
     slices = [n for n in ast.walk(f.node) if isinstance(n, ast.Subscript) and isinstance(n.slice, ast.Slice) and norm_text(n.value) in logv]
     ok = bool(slices) and all(isinstance(s.slice.lower, ast.UnaryOp) and isinstance(s.slice.lower.op, ast.USub) and s.slice.upper is None for s in slices)
     ctx.ob("C15.R6", f, "trim keeps the newest entries (log[-max:])", None, ok,
            f"slices: {[norm_text(s) for s in slices]}")
-    ts = [d for d in ast.walk(f.node) if isinstance(d, ast.Dict) and any(isinstance(k, ast.Constant) and k.value == "timestamp-ms" for k in d.keys)]
-    ok = bool(ts) and any(isinstance(k, ast.Constant) and k.value == "timestamp-ms" and "base_metadata.last_updated_ms" in norm_text(v)
-                          for k, v in zip(ts[0].keys, ts[0].values))
+    tv = _entry_value("timestamp-ms")
+    ok = tv is not None and "base_metadata.last_updated_ms" in norm_text(tv)
     ctx.ob("C15.R6", f, "entry timestamp is the superseded version's stamp", None, ok, "")
     c = ctx.fn("metadata_manager.MetadataManager.commit")
     cg = ctx.cfg(c)
